@@ -157,6 +157,17 @@ func (f *c03Lnd) mark() int { f.mu.Lock(); defer f.mu.Unlock(); return len(f.add
 type c03Fund struct {
 	Layout string
 	NIn    int
+	// Nested: the last funding input is a nested (P2SH-P2WKH) wallet output, whose
+	// finalised form carries a scriptSig - the txid of the signed transaction then
+	// differs from the txid of the unsigned one.
+	Nested bool
+}
+
+func c03NestedRedeem() []byte { return c03ChangeScript() }
+
+func c03NestedScript() []byte {
+	h := btcutil.Hash160(c03NestedRedeem())
+	return append(append([]byte{0xa9, 0x14}, h...), 0x87)
 }
 
 func (f c03Fund) String() string { return fmt.Sprintf("%s/in%d", f.Layout, f.NIn) }
@@ -251,6 +262,11 @@ func (w *c03Wk) FundPsbt(_ context.Context, in *walletrpc.FundPsbtRequest, _ ...
 	for i := range p.Inputs {
 		p.Inputs[i].WitnessUtxo = wire.NewTxOut(vals[i], c03ChangeScript())
 	}
+	if w.fund.Nested {
+		last := len(p.Inputs) - 1
+		p.Inputs[last].WitnessUtxo = wire.NewTxOut(vals[last], c03NestedScript())
+		p.Inputs[last].RedeemScript = c03NestedRedeem()
+	}
 	var buf bytes.Buffer
 	if err := p.Serialize(&buf); err != nil {
 		return nil, err
@@ -273,6 +289,12 @@ func (w *c03Wk) FinalizePsbt(_ context.Context, in *walletrpc.FinalizePsbtReques
 		_ = wire.WriteVarBytes(&wb, 0, sig)
 		_ = wire.WriteVarBytes(&wb, 0, pub)
 		p.Inputs[i].FinalScriptWitness = wb.Bytes()
+		if len(p.Inputs[i].RedeemScript) > 0 {
+			// nested segwit: the scriptSig pushes the redeem script
+			ss, _ := txscript.NewScriptBuilder().AddData(p.Inputs[i].RedeemScript).Script()
+			final.TxIn[i].SignatureScript = ss
+			p.Inputs[i].FinalScriptSig = ss
+		}
 	}
 	var raw, signed bytes.Buffer
 	if err := final.Serialize(&raw); err != nil {
